@@ -32,6 +32,7 @@ type sv struct {
 	off int    // mark: constant added to the position;  const: the value
 	b   bool   // bool
 	t   string // svc: the type the service value was asserted to
+	// win: a window buf.Bytes()[lo:hi] kept in a local (ev/off = lo mark, ev2 = width once known)
 }
 
 type sevent struct {
@@ -100,6 +101,10 @@ type srun struct {
 	depth   int
 	news    int // number of objects created so far (each `new` value carries its number in ev)
 	objs    []sobj
+	// explicit byte stores into a window of the buffer (`w[0] = byte(n >> 24)` …): window position -> index -> shift, and
+	// the value stored
+	stores   map[int]map[int]int
+	storeVal map[int]sv
 }
 
 func (r *srun) newObj(t string) sv {
@@ -538,6 +543,49 @@ func (r *srun) callFuncIn(fr *sframe, c *ast.CallExpr, h *ast.FuncDecl, outer *s
 	return vals
 }
 
+// storeByte records `w[i] = byte(span >> shift)`; when every byte of the window has been stored, the stores are one patch
+// of the window in big- or little-endian order (anything else - a transposed byte, two values mixed - is not followed)
+func (r *srun) storeByte(w sv, i int, b sv) {
+	if r.stores == nil {
+		r.stores, r.storeVal = map[int]map[int]int{}, map[int]sv{}
+	}
+	span := sv{k: "span", ev: b.ev, ev2: b.ev2, f: b.f}
+	if old, ok := r.storeVal[w.ev]; ok && old != span {
+		r.giveUp("bytes of two different values stored into one window")
+	}
+	r.storeVal[w.ev] = span
+	if r.stores[w.ev] == nil {
+		r.stores[w.ev] = map[int]int{}
+	}
+	if _, dup := r.stores[w.ev][i]; dup {
+		r.giveUp("byte %d of the window stored twice", i)
+	}
+	r.stores[w.ev][i] = b.off
+	if len(r.stores[w.ev]) < w.ev2 {
+		return
+	}
+	be, le := true, true
+	for k := 0; k < w.ev2; k++ {
+		if r.stores[w.ev][k] != 8*(w.ev2-1-k) {
+			be = false
+		}
+		if r.stores[w.ev][k] != 8*k {
+			le = false
+		}
+	}
+	order := ""
+	switch {
+	case be:
+		order = "be"
+	case le:
+		order = "le"
+	default:
+		r.giveUp("hand-written byte stores are neither big- nor little-endian")
+	}
+	r.newEvent(sevent{kind: "patch", at: span, raw: &Op{K: "scalar", W: w.ev2, E: order}, key: fmt.Sprint(w.ev), node: ast.NewIdent("byte stores")})
+	delete(r.stores, w.ev)
+}
+
 // normalised position: a constant offset that equals the width of the fixed-width call made at that position moves the
 // mark past that call (`bodyStart := lenPos + 4`)
 func (r *srun) normMark(m sv) sv {
@@ -613,6 +661,31 @@ func (r *srun) frameCall(fr *sframe, c *ast.CallExpr) ([]sv, bool) {
 	// buf.Len()
 	if isSel && sel.Sel.Name == "Len" && r.isBufExpr(fr, sel.X) && len(c.Args) == 0 {
 		return []sv{{k: "mark", ev: len(r.events)}}, true
+	}
+	// byte(X >> s) / byte(X) / uint8(…): one byte of a span (for explicit byte stores)
+	if id, ok := c.Fun.(*ast.Ident); ok && len(c.Args) == 1 && (id.Name == "byte" || id.Name == "uint8") {
+		arg := c.Args[0]
+		shift := 0
+		if b, ok := arg.(*ast.BinaryExpr); ok && b.Op == token.SHR {
+			n, ok := intLit(b.Y)
+			if !ok || n%8 != 0 || n < 0 || n > 56 {
+				r.giveUp("shift %s", src(c))
+			}
+			shift, arg = n, b.X
+		}
+		if pe, ok := arg.(*ast.ParenExpr); ok {
+			arg = pe.X
+		}
+		if r.pure(arg) {
+			if id, isID := arg.(*ast.Ident); !isID || func() bool { _, ok := fr.sc.get(id.Name); return ok }() {
+				if _, isLit := arg.(*ast.BasicLit); !isLit {
+					v := r.eval(fr, arg)
+					if len(v) == 1 && v[0].k == "span" {
+						return []sv{{k: "bytesel", ev: v[0].ev, ev2: v[0].ev2, off: shift, f: v[0].f}}, true
+					}
+				}
+			}
+		}
 	}
 	// uint32(X): conversion of a span or of the constant 0
 	if id, ok := c.Fun.(*ast.Ident); ok && len(c.Args) == 1 && scalarWidth(id.Name) > 0 && !strings.HasPrefix(id.Name, "float") {
@@ -776,6 +849,33 @@ func (r *srun) eval(fr *sframe, e ast.Expr) []sv {
 		r.giveUp("selector %s", src(x))
 	case *ast.CallExpr:
 		return r.evalCall(fr, x)
+	case *ast.SliceExpr:
+		if r.write {
+			if lo, hi, ok := r.bytesSlice(fr, x); ok && hi != nil {
+				lo = r.normMark(lo)
+				h := r.normMark(sv{k: "mark", ev: hi.ev, off: hi.off})
+				w := -1
+				if h.ev == lo.ev && lo.off == 0 {
+					w = h.off
+				} else if h.ev == lo.ev+1 && h.off == 0 && lo.off == 0 && lo.ev < len(r.events) {
+					w = r.eventWidth(r.events[lo.ev])
+				}
+				if w > 0 {
+					return []sv{{k: "win", ev: lo.ev, ev2: w}}
+				}
+			}
+		}
+		r.giveUp("slice %s", src(x))
+	case *ast.IndexExpr:
+		// `_ = w[3]` (a bounds-check hint): reading a byte of a window has no effect
+		if id, ok := x.X.(*ast.Ident); ok {
+			if v, ok := fr.sc.get(id.Name); ok && v.k == "win" {
+				if n, ok := intLit(x.Index); ok && n >= 0 && n < v.ev2 {
+					return []sv{{k: "zero"}}
+				}
+			}
+		}
+		r.giveUp("index %s", src(x))
 	case *ast.StarExpr:
 		if f, ok := r.recvField(fr, x); ok {
 			return []sv{r.fieldVal(f)}
@@ -903,6 +1003,16 @@ func (r *srun) assign(fr *sframe, lhs ast.Expr, v sv, define bool) {
 			r.fields[f] = v
 			r.assigns = append(r.assigns, f)
 			return
+		}
+	case *ast.IndexExpr:
+		// one byte of a length placeholder written by hand: collected until the window is complete
+		if id, ok := x.X.(*ast.Ident); ok && !define && v.k == "bytesel" {
+			if w, ok := fr.sc.get(id.Name); ok && w.k == "win" {
+				if i, ok := intLit(x.Index); ok && i >= 0 && i < w.ev2 {
+					r.storeByte(w, i, v)
+					return
+				}
+			}
 		}
 	}
 	r.giveUp("assignment target %s", src(lhs))
@@ -1135,6 +1245,9 @@ func (c *ctx) symRun(fd *ast.FuncDecl, write bool, dec []bool, failAt int) (r *s
 		return r, sv{}, "results"
 	}
 	returned, vals := r.exec(fr, fd.Body.List)
+	if len(r.stores) != 0 {
+		return r, sv{}, "a window of the buffer is only partly overwritten"
+	}
 	if !returned {
 		return r, sv{}, "falls off the end"
 	}
